@@ -35,6 +35,7 @@ type fieldSpec struct {
 	deflt    string
 	defltS   []string // slice fields: the default's elements (tag text is the JSON array)
 	emb      bool     // declared in an embedded struct (a shared base request), promoted
+	jsonDash bool     // carries `json:"-"`: the JSON body is not a source of this field
 }
 
 var kinds = []reflect.Kind{reflect.Bool, reflect.Int, reflect.Int8, reflect.Int16, reflect.Int32, reflect.Int64, reflect.Uint, reflect.Uint8, reflect.Uint16, reflect.Uint32, reflect.Uint64, reflect.Float32, reflect.Float64, reflect.String}
@@ -92,6 +93,9 @@ func (f fieldSpec) tag() reflect.StructTag {
 			}
 			parts = append(parts, fmt.Sprintf(`%s:"%s"`, s, v))
 		}
+	}
+	if f.jsonDash {
+		parts = append(parts, `json:"-"`)
 	}
 	if f.deflt != "" {
 		parts = append(parts, fmt.Sprintf(`default:"%s"`, f.deflt))
@@ -242,6 +246,18 @@ func buildReq(rs reqSpec, fields []fieldSpec) (*protocol.Request, param.Params) 
 				m[k] = arr
 			} else {
 				m[k] = conv(vs[0])
+			}
+		}
+		// a body key that spells the Go name of a field the body is not a source of
+		for i := range fields {
+			if f := &fields[i]; f.jsonDash {
+				if v, err := convert(f.kind, genValue(mon.NewRand(int64(len(f.name)), uint64(i)), f.kind, 7)); err == nil {
+					if f.slice {
+						m[f.name] = []interface{}{v}
+					} else {
+						m[f.name] = v
+					}
+				}
 			}
 		}
 		b, _ := json.Marshal(m)
@@ -468,7 +484,7 @@ func genFields(r *mon.Rand) []fieldSpec {
 		}
 		for _, s := range srcOrder {
 			if r.Chance(3) {
-				if f.slice && (s == "path" || s == "cookie") {
+				if f.slice && s == "cookie" {
 					continue
 				}
 				f.tags[s] = fmt.Sprintf("k%d%s", i, s[:1])
@@ -484,6 +500,9 @@ func genFields(r *mon.Rand) []fieldSpec {
 		}
 		if len(f.tags) == 0 {
 			f.tags["query"] = fmt.Sprintf("k%dq", i)
+		}
+		if _, hasJSON := f.tags["json"]; !hasJSON && r.Chance(6) {
+			f.jsonDash = true
 		}
 		if r.Chance(5) && !f.slice {
 			f.deflt = genValue(r, f.kind, 9)
@@ -536,7 +555,7 @@ func genReqSpec(r *mon.Rand, fields []fieldSpec) reqSpec {
 				continue
 			}
 			vs := []string{genValue(r, f.kind, si+1)}
-			if r.Chance(10) && (s == "query" || s == "form") && !f.slice && f.deflt == "" && f.tags["json"] == "" {
+			if r.Chance(10) && (s == "query" || s == "form" || s == "path") && (!f.slice || s == "path") && f.deflt == "" && f.tags["json"] == "" {
 				// a key that is present with an empty value (?k=): the source carries the field,
 				// so lower-priority sources must not be consulted; the empty text converts to ""
 				// for strings and is a conversion error for the other kinds.  (Only the
@@ -555,7 +574,7 @@ func genReqSpec(r *mon.Rand, fields []fieldSpec) reqSpec {
 					vs = []string{e}
 				}
 			}
-			if f.slice && r.Bool() {
+			if f.slice && r.Bool() && s != "path" { // (a path parameter has one value)
 				vs = append(vs, genValue(r, f.kind, si+1))
 			}
 			rs.vals[s][key] = vs
